@@ -114,6 +114,7 @@ type ChanObj struct {
 	sinkFn   Value       // callback invoked with every value the environment receives
 	gateLog  []string    // gate steps of the task that filled the buffer (logged at receive time)
 	final    bool        // final source: still fires when the step budget is exhausted
+	envPush  bool        // the environment is a CALLER sending on this channel: if it is buffered the send completes when the value is queued
 }
 type ChanV struct{ ch *ChanObj }
 
